@@ -7,7 +7,7 @@ from harness.carrier import carrier_yaml
 
 NAMES = {
     'g1': 'glob1', 'g2': 'glob2', 'f1': '_1st', 'l1': '.loc1', 'l2': '.loc2',
-    'kg1': 'KGLOB1', 'kg2': 'KGLOB2', 'kf1': '_KFIL1', 'pd1': 'pdat1', 'pc1': 'PCON1', 'rg': 'sp',
+    'kg1': 'KGLOB1', 'kg2': 'KGLOB2', 'kf1': '_KFIL1', 'pd1': 'pdat1', 'pd2': 'pdat2', 'pc1': 'PCON1', 'rg': 'sp',
     'S1': 'SYM1', 'S2': 'SYM2', 'S3': 'SYM3',
     'z1': 'zone1', 'z2': 'zone2', 'z3': 'zone3', 'GLOBAL': 'GLOBAL',
     # names that differ from others only in ways that must matter: a zone called Global is not GLOBAL; _1st (f1) is a file label like any other;
@@ -47,6 +47,10 @@ def line_text(k, n, a, b):
         return f'ld8 {operand(n, a)}'
     if k == 'i3':
         return f'ld16 {operand(n, a)}'
+    if k == 'brl':
+        return f'bra {operand(n, a)}'
+    if k == 'mbr':
+        return f'nbn {operand(n, a)}'
     if k == 'byte':
         vals = [operand(n, a)] + [str(a + j) for j in range(1, b)]
         return '.byte ' + ', '.join(vals)
